@@ -276,8 +276,9 @@ pub fn render(lines: &[L], c: &Cfg) -> Option<Rendered> {
             if matches!(lines[nl - 1], L::E) {
                 return None; // identical to a shorter list with a final break
             }
-            // declined zone: keep + a final spaces-only line without a break
-            if matches!(lines[nl - 1], L::Es | L::En) && c.chomp == 2 {
+            // declined zone: keep + a final spaces-only line without a break - except where it is the
+            // sole line of the scalar, which counts as an empty line (yaml-test-suite JEF9)
+            if matches!(lines[nl - 1], L::Es | L::En) && c.chomp == 2 && !(nl == 1 && n >= 1) {
                 return None;
             }
         }
